@@ -260,7 +260,7 @@ def quiet():
 
 
 # ------------------------------------------------------------------ inputs
-def gen_raw_screen(rng, all_observed=False, all_masked=False, with_controls=True):
+def gen_raw_screen(rng, all_observed=False, all_masked=False, with_controls=True, fixed_rows=None):
     ns = rng.randint(1, 3)
     nt = rng.randint(3, 6)
     rows = []
@@ -268,7 +268,7 @@ def gen_raw_screen(rng, all_observed=False, all_masked=False, with_controls=True
     for s in range(ns):
         for _ in range(rng.randint(1, 4)):
             obs = True if all_observed else False if all_masked else (rng.random() < 0.3)
-            for _ in range(rng.randint(1, 7)):
+            for _ in range(fixed_rows or rng.randint(1, 7)):
                 a = rng.randrange(nt)
                 b = rng.randrange(nt)
                 tb = "control" if (with_controls and rng.random() < 0.2) else "t%d" % b
@@ -526,12 +526,32 @@ def op_policy(case, G, ins, tmp):
     return "kPerSamplePolicy", [], ",".join(str(p.plate_id) for p in out)
 
 
-def _scores_for(screen, r):
+def _scores_for(screen, r, ties=None):
+    """score table of the unobserved plates.  checklist item 22 -- ties: `all_equal`; `min_pair`: two plates share the minimum, the higher id stored
+    first; `neg_inf`: several -inf; `size`: the SizeScorer's scores through score_chunk (equal on plates of one size).  A tie-break must not draw
+    from anything but the generator select_next_plate was given."""
     from batchie.scoring.main import ChunkedScoresHolder
     un = [p for p in screen.plates if not p.is_observed]
+    if ties == "size":
+        from batchie.scoring.main import score_chunk
+        from batchie.scoring.size import SizeScorer
+        with quiet():
+            return score_chunk(scorer=SizeScorer(), thetas=None, screen=screen, distance_matrix=None, rng=_ORIG_DEFAULT_RNG(0), n_chunks=1, chunk_index=0)
+    vals = {p.plate_id: r.random() for p in un}
+    ids = sorted(vals)
+    if ties == "all_equal":
+        vals = {i: 0.5 for i in ids}
+    elif ties == "min_pair" and len(ids) >= 2:
+        a, b = r.sample(ids, 2)
+        vals[a] = vals[b] = -1.0
+        ids = sorted(ids, reverse=True)                  # the higher id is stored first
+    elif ties == "neg_inf" and len(ids) >= 2:
+        for i in r.sample(ids, min(len(ids), r.randint(2, 3))):
+            vals[i] = float("-inf")
+        r.shuffle(ids)
     h = ChunkedScoresHolder(len(un))
-    for p in un:
-        h.add_score(p.plate_id, r.random())
+    for i in ids:
+        h.add_score(i, vals[i])
     return h
 
 
@@ -539,7 +559,7 @@ def op_select_next_plate(case, G, ins, tmp):
     from batchie.policies.k_per_sample import KPerSamplePlatePolicy
     from batchie.scoring.main import select_next_plate
     s = build_screen(case["screen"])
-    scores = _scores_for(s, pyrandom.Random(case["data_seed"]))
+    scores = _scores_for(s, pyrandom.Random(case["data_seed"]), case.get("ties"))
     policy = KPerSamplePlatePolicy(k=case["k"]) if case["policy"] else None
     un = sorted(p.plate_id for p in s.plates if not p.is_observed)
     batch = un[:case["n_batch"]]
@@ -779,7 +799,7 @@ def op_cli_select(case, G, ins, tmp):
     s = build_screen(case["screen"])
     data, sc, out = (os.path.join(tmp, x) for x in ("data.h5", "scores.h5", "next.txt"))
     s.save_h5(data)
-    _scores_for(s, pyrandom.Random(case["data_seed"])).save_h5(sc)
+    _scores_for(s, pyrandom.Random(case["data_seed"]), case.get("ties")).save_h5(sc)
     un = sorted(p.plate_id for p in s.plates if not p.is_observed)
     batch = un[:case["n_batch"]]
     argv = ["select_next_plate", "--data", data, "--scores", sc, "--output", out, "--seed", str(case["seed"])]
@@ -1090,6 +1110,9 @@ def gen_case(rng, op):
     elif op == "select_next_plate":
         case.update(screen=gen_raw_screen(rng), k=rng.randint(1, 2), n_batch=rng.randint(0, 2), policy=rng.random() < 0.6,
                     rng_given=rng.random() < 0.8, data_seed=rng.getrandbits(31))
+        case["ties"] = rng.choice([None, "all_equal", "min_pair", "neg_inf", "size"])
+        if case["ties"] == "size":
+            case["screen"] = gen_raw_screen(rng, fixed_rows=rng.randint(1, 3))
     elif op == "score_chunk":
         nc = rng.randint(1, 3)
         case.update(screen=gen_raw_screen(rng), scorer=rng.choice(["random", "dbal", "dbal", "size"]), n_thetas=rng.randint(4, 6), n_batch=rng.randint(0, 1),
@@ -1117,6 +1140,9 @@ def gen_case(rng, op):
                     n_chunks=nc, chunk_index=rng.randrange(nc), data_seed=rng.getrandbits(31))
     elif op == "cli_select":
         case.update(screen=gen_raw_screen(rng), k=rng.randint(1, 2), n_batch=rng.randint(0, 2), policy=rng.random() < 0.6, data_seed=rng.getrandbits(31))
+        case["ties"] = rng.choice([None, "all_equal", "min_pair", "neg_inf", "size"])
+        if case["ties"] == "size":
+            case["screen"] = gen_raw_screen(rng, fixed_rows=rng.randint(1, 3))
     elif op == "cli_analyze":
         case.update(screen=gen_raw_screen(rng, all_observed=True), chains=[rng.randint(2, 3) for _ in range(rng.randint(1, 2))], data_seed=rng.getrandbits(31))
     elif op == "cli_evaluate":
@@ -1851,6 +1877,8 @@ def run(ctx, res):
             if case["seed"] == 0:
                 res.count("seed0." + op)
                 res.count("class.falsy_seed")
+            if case.get("ties"):
+                res.count("class.ties.%s.%s" % (op, case["ties"]))
             if case.get("instalments"):
                 res.count("class.instalments." + op)
             if case.get("max_combos", 0) is None or case.get("n_thetas") in (32, 33):
@@ -1904,9 +1932,15 @@ def run(ctx, res):
             base = gen_case(crng, kind)
             if kind != "cli_prepare" or execute(dict(base, seed=1), False)["err"] is None:
                 break
+        if kind == "cli_select":           # checklist item 22: the minimum score is tied (seed 0 / 1 / large: all-equal, two-way, several -inf)
+            base["policy"] = False
+            base["n_batch"] = 0
         # the plotting command costs > 1 s per run: seeds 0 and the large one in the quick tier
         for seed in ((0, BIG_SEED) if (kind == "cli_analyze" and ctx.tier == "quick") else (0, 1, BIG_SEED)):
             case = dict(base, seed=seed, verbose=(seed != 1))
+            if kind == "cli_select":
+                case["ties"] = {0: "all_equal", 1: "min_pair"}.get(seed, "neg_inf")
+                res.count("class.ties.entry-point.select_next_plate." + case["ties"])
             res.evaluations += 1
             res.count("class.entry-point." + name)
             res.count("class.entry-point.%s.seed_%s" % (name, "big" if seed == BIG_SEED else seed))
